@@ -499,6 +499,14 @@ func keepalive(transport Transport, interval time.Duration, quit <-chan struct{}
 				vpoint("ka.tick")
 			}
 			if err := transport.Ping(); err != nil {
+				select {
+				case <-quit:
+					// The session ended while this ping was under way: its loss has been reported already, and the
+					// transport may by now carry the next session, which is not this goroutine's to close.
+					ticker.Stop()
+					return
+				default:
+				}
 				if verifEnabled {
 					vpoint("ka.pingfail")
 				}
